@@ -269,6 +269,8 @@ fn c10_async_file(case: &Case) {
     let (dest2, snaps2, old2, exp2) = (dest.clone(), snaps.clone(), preexisting.clone(), expected_file.clone());
     let outcome: Arc<std::sync::Mutex<Option<Option<Result<(), String>>>>> = Default::default();
     let outcome2 = outcome.clone();
+    let temp_left: Arc<std::sync::Mutex<bool>> = Default::default();
+    let temp_left2 = temp_left.clone();
     aio::run(&case.clone(), 3_600, async move {
         let case = case2;
         let t = match connect(&payload, opts, ws).await {
@@ -310,6 +312,14 @@ fn c10_async_file(case: &Case) {
         };
         if res.is_none() {
             simkernel::count("fault.pull_abandoned");
+        }
+        // a pull that *returned* has nothing of its own still running: its temp file is
+        // already gone (published or removed) at this very instant
+        if res.is_some() && dest2.with_extension("bin.svspart").exists() {
+            let created = simkernel::fsprobe::peek_fs_events().iter().any(|e| e.kind == "created");
+            if created {
+                *temp_left2.lock().unwrap() = true;
+            }
         }
         // let an abandoned decoder thread notice and clean up
         sleep_ms(20).await;
@@ -364,6 +374,7 @@ fn c10_async_file(case: &Case) {
             case.probe("snapshot_between_sync_and_rename");
         }
     }
+    case.check(!*temp_left.lock().unwrap(), "temp-file-left", || "the pull had returned but its .svspart sibling still existed at that instant (something of the pull was still running)".into());
     let must_fail = producer_fails || verifier_rejects || trailer_too_long || rename_fails;
     match outcome {
         None => {
